@@ -35,6 +35,9 @@ type tagValuesLookup struct {
 	executeCtx *flow.StorageExecuteContext
 	metaDB     index.MetricMetaDatabase
 
+	knownTagKeys, unknownTagKeys int
+	firstErr                     error // tag key not found error of first unknown tag key
+
 	err error
 }
 
@@ -50,6 +53,10 @@ func NewTagValuesLookup(executeCtx *flow.StorageExecuteContext, database tsdb.Da
 func (op *tagValuesLookup) Execute() error {
 	op.executeCtx.TagFilterResult = make(map[string]*flow.TagFilterResult)
 	op.findTagValueIDsByExpr(op.executeCtx.Query.Condition)
+	if op.err == nil && op.knownTagKeys == 0 && op.unknownTagKeys > 0 {
+		// none of the tag keys of the condition exists under current node
+		return op.firstErr
+	}
 	return op.err
 }
 
@@ -65,9 +72,19 @@ func (op *tagValuesLookup) findTagValueIDsByExpr(expr stmt.Expr) {
 	case stmt.TagFilter:
 		tagKeyID, err := op.getTagKeyID(expr.TagKey())
 		if err != nil {
-			op.err = err
+			// no series under current node carries the tag key(series of a metric need not have the same
+			// tag keys): the filter matches nothing here, other filters of the condition still may.
+			op.unknownTagKeys++
+			op.executeCtx.TagFilterResult[expr.Rewrite()] = &flow.TagFilterResult{
+				TagValueIDs: roaring.New(),
+				KeyNotFound: true,
+			}
+			if op.firstErr == nil {
+				op.firstErr = err
+			}
 			return
 		}
+		op.knownTagKeys++
 		tagValueIDs, err := op.metaDB.FindTagValueDsByExpr(tagKeyID, expr)
 		if err != nil {
 			op.err = err
